@@ -46,6 +46,20 @@ fn payload_maps() -> Vec<[Payload; 2]> {
 }
 
 pub fn key_sets() -> Vec<[u64; 3]> {
+    let mut v = key_sets_base();
+    // keys that differ in ONE bit, for every bit position (an index / signature scheme that ignores some bits
+    // of the key confuses exactly such keys), and in one low and one high bit
+    let base = 0x9E3779B97F4A7C15u64;
+    for b in 0..64u32 {
+        v.push([base, base ^ (1u64 << b), base ^ (1u64 << ((b + 29) % 64))]);
+    }
+    for b in 0..32u32 {
+        v.push([!base, !base ^ (1u64 << b) ^ (1u64 << (63 - b)), (!base).rotate_left(b)]);
+    }
+    v
+}
+
+fn key_sets_base() -> Vec<[u64; 3]> {
     vec![
         [0, u64::MAX, 1],
         [1, 1 + (1u64 << 32), 1 + (1u64 << 48)],
@@ -197,6 +211,12 @@ pub fn record(args: &[String]) -> i32 {
         }
         for i in 1..5u64 {
             keys.push(base.wrapping_add(i << 32));
+        }
+        // pairs differing in a single random bit
+        for _ in 0..3 {
+            let k: u64 = rng.gen();
+            keys.push(k);
+            keys.push(k ^ (1u64 << rng.gen_range(0..64)));
         }
         while keys.len() < 16 {
             keys.push(rng.gen());
